@@ -314,13 +314,25 @@ pub fn replay(case: &J) -> Vec<Violation> {
     let mut local = Local::for_replay();
     match case["kind"].as_str().unwrap_or("") {
         "catalogue" => check_catalogue(&subs, &mut local).into_iter().filter(|v| v.case["entry"] == case["entry"]).collect(),
+        "differential-converter" => {
+            let input = case["input"].as_str().unwrap_or("");
+            let conv = if case["converter"].as_str().unwrap_or("").starts_with("empty") {
+                Converter::empty()
+            } else {
+                let layer: Option<cooklang::convert::UnitsFile> = toml::from_str("[extend]\nprecedence = \"override\"\n[extend.units]\nmin = { aliases = [\"mn\"] }\ncup = { symbols = [\"cp\"] }\n").ok();
+                layer.and_then(|l| cooklang::convert::ConverterBuilder::new().with_units_file(cooklang::convert::UnitsFile::bundled()).ok()?.with_units_file(l).ok()?.finish().ok()).unwrap_or_else(Converter::bundled)
+            };
+            let _ = CooklangParser::new(cooklang::Extensions::all(), Converter::bundled()).parse(input);
+            let sb = Subsets { parsers: all_extension_subsets().into_iter().map(|e| CooklangParser::new(e, conv.clone())).collect() };
+            differential(input, &sb, &mut local)
+        }
         _ => differential(case["input"].as_str().unwrap_or(""), &subs, &mut local),
     }
 }
 
 pub fn run(tier: Tier) {
     let c = ctx();
-    c.set_rule("Part A (differential): (i) every core-only canonical model recipe (L1 x 4 contexts, L2 pairs and triples, L3 block sequences) in every spelling with <= d deviations, (ii) every token-alphabet string up to n symbols that an independent syntactic classifier accepts as free of reinterpreted constructs and that parses without error with no extensions: the complete result (recipe JSON, validity, ordered diagnostics) must be identical under all 192 extension subsets (bundled units); Part B (catalogue): 18 sources using one extension's syntax, under every subset lacking that extension, must read as the core text the documentation describes; non-trivial = recipes / strings compared under all subsets; distinct = distinct sources");
+    c.set_rule("Part A (differential): (i) every core-only canonical model recipe (L1 x 4 contexts, L2 pairs and triples, L3 block sequences) in every spelling with <= d deviations, (ii) every token-alphabet string up to n symbols that an independent syntactic classifier accepts as free of reinterpreted constructs and that parses without error with no extensions: the complete result (recipe JSON, validity, ordered diagnostics) must be identical under all 192 extension subsets (bundled units); (iii) plain text of numbers, blanks and unit-like words under the empty converter and under a layered converter whose override layer dropped keys, each string parsed once by a bundled parser first; Part B (catalogue): 18 sources using one extension's syntax, under every subset lacking that extension, must read as the core text the documentation describes; non-trivial = recipes / strings compared under all subsets; distinct = distinct sources");
     let subs = Arc::new(subsets());
     let cfg = Config { extended: false };
     // (i) model recipes
@@ -434,6 +446,75 @@ pub fn run(tier: Tier) {
     });
     if c.has_violations() {
         return;
+    }
+    // other converters: what counts as "a number and a known unit" depends on the parser's own converter.
+    // Plain text over numbers, blanks and unit-like words, under the empty converter and under a layered one
+    // whose override layer dropped some keys, each string first parsed once by the bundled all-extensions parser
+    // (which knows all the words) in the same process.
+    {
+        let layer: Option<cooklang::convert::UnitsFile> = toml::from_str("[extend]\nprecedence = \"override\"\n[extend.units]\nmin = { aliases = [\"mn\"] }\ncup = { symbols = [\"cp\"] }\n").ok();
+        let layered = layer.and_then(|l| cooklang::convert::ConverterBuilder::new().with_units_file(cooklang::convert::UnitsFile::bundled()).ok()?.with_units_file(l).ok()?.finish().ok());
+        let mut convs: Vec<(&'static str, Converter)> = vec![("empty converter", Converter::empty())];
+        match layered {
+            Some(l) => convs.push(("bundled units + an override layer that drops the keys `mins` and `c`", l)),
+            None => c.note("the override layer could not be built; that converter is not part of this run"),
+        }
+        let words = Arc::new(crate::strings::Alphabet::new("A_text_units", &["2", "1/2", "g", "C", "min", "mins", "c", "cup", " ", "\u{a0}", "a", "\n"]));
+        c.part(json!({"alphabet": words.name, "symbols": words.syms}));
+        let nw = tier.pick(4, 5);
+        let warm = Arc::new(CooklangParser::new(cooklang::Extensions::all(), Converter::bundled()));
+        for (cname, conv) in convs {
+            let known: Arc<std::collections::BTreeSet<String>> = Arc::new(conv.all_units().flat_map(|u| u.names.iter().chain(&u.symbols).chain(&u.aliases).map(|k| k.to_string()).collect::<Vec<_>>()).collect());
+            let sb = Arc::new(Subsets { parsers: all_extension_subsets().into_iter().map(|e| CooklangParser::new(e, conv.clone())).collect() });
+            let (wd, wm) = (words.clone(), warm.clone());
+            sweep(&format!("C02 A(iii): A_text_units strings of 0..={nw} symbols without a number next to a unit of the {cname} x 192 subsets"), words.count_upto(nw), {
+                let wd = words.clone();
+                move |idx| {
+                    let mut seq = Vec::new();
+                    let mut s = String::new();
+                    wd.decode_upto(idx, nw, &mut seq);
+                    wd.concat(&seq, &mut s);
+                    json!({"kind": "differential-converter", "input": s, "converter": cname})
+                }
+            }, move |idx, local| {
+                let mut seq = Vec::new();
+                let mut s = String::new();
+                wd.decode_upto(idx, nw, &mut seq);
+                wd.concat(&seq, &mut s);
+                if !wd.is_canonical(&seq, &s) {
+                    return vec![];
+                }
+                // a digit followed (after optional blanks) by a word that is a key of this converter
+                let chars: Vec<char> = s.chars().collect();
+                let mut number_and_unit = false;
+                for i in 0..chars.len() {
+                    if chars[i].is_ascii_digit() {
+                        let mut j = i + 1;
+                        while j < chars.len() && chars[j].is_whitespace() {
+                            j += 1;
+                        }
+                        let word: String = chars[j..].iter().take_while(|ch| !ch.is_whitespace() && !ch.is_ascii_digit() && **ch != '/').collect();
+                        if known.contains(&word) {
+                            number_and_unit = true;
+                        }
+                    }
+                }
+                if number_and_unit {
+                    local.outcome("number and a unit of this converter in one text (reinterpreted by INLINE_QUANTITIES, skipped)");
+                    return vec![];
+                }
+                let _ = wm.parse(&s);
+                let mut v = differential(&s, &sb, local);
+                for x in &mut v {
+                    x.case = json!({"kind": "differential-converter", "input": s, "converter": cname});
+                    x.detail = format!("({cname}) {}", x.detail);
+                }
+                v
+            });
+            if c.has_violations() {
+                return;
+            }
+        }
     }
     // block-level combinations: front matter together with `>>` lines, sections, paragraphs
     let blocks = Arc::new(crate::strings::Alphabet::new(
